@@ -96,6 +96,13 @@ def plan(seed, subbatch):
             op["pos"] = op_rng.choice((op_rng.random(), op_rng.random() * 0.3, 0.999))
             op["neg"] = op_rng.random() < 0.4
         extras.append((op_rng.random(), op))
+    if kind == "hexital" and op_rng.random() < 0.35:
+        # a member on a NEW timeframe registered later, when the other members already hold readings
+        late_tf = world.pick_timeframe(op_rng, base_s, 2.0, 8.0, allow_finer=False)
+        late = sample_spec(op_rng, max_period=6)
+        late["common"]["timeframe"] = late_tf
+        if member_name(late) not in {member_name(m) for m in members}:
+            extras.append((0.3 + 0.6 * op_rng.random(), {"op": "add", "spec": late}))
     start = world.pick_start(cfg, base_s, tf_s)
     pre, ops, fired, rows = planlib.stream_and_schedule(seed, subbatch, n, base_s, start, faults, burst, 0.0, extras,
                                                         regimes=regimes)
@@ -251,6 +258,13 @@ def execute(trace, ctx=None):
                 elif kind in ("calculate", "purge", "recalculate"):
                     slot = m.slot(op.get("target"))
                     getattr(m, kind)(slot)
+                    maint += 1
+                elif kind == "add":
+                    if m.kind != "hexital" or any(s.name == member_name(op["spec"]) for s in m.live_slots()):
+                        continue
+                    m.add(op["spec"])
+                    m.calculate(None)
+                    run.stats["late_member_on_new_timeframe"] += 1
                     maint += 1
                 elif kind == "calc_index":
                     slot = m.slot(op.get("target"))
